@@ -16,6 +16,7 @@ func init() {
 			"the source is only ever read (flows only into walk -> View; the CLI opens it ReadOnly); every error inside the callback is returned and aborts Compact before the final commit. " +
 			"NOT decided: equality of destination and source content, the arithmetic of txMaxSize (dynamic / value-level). Round 3: the callback decides bucket versus key/value by v == nil, never by len(v).",
 		Run: func(c *Ctx) {
+			ruleEveryCachedChildSpilled(c, "C15.R7") // Compact writes into nested destination buckets through buckets it only opens
 			c15R1(c, "C15.R1")
 			c15R2(c, "C15.R2")
 			c15R3(c, "C15.R3")
